@@ -1,5 +1,6 @@
 import Cinco.Drv.FieldWire
 import Cinco.Config.Ops
+import Cinco.Config.Env
 /-
   Wire format of schemas, configurations and operation histories (driver side only).
 -/
@@ -77,6 +78,24 @@ def worldOfJson (j : Json) : R World := do
     | _ => pure []
   let fe ← envOfJson (match fieldOpt j "env" with | some e => e | none => Json.mkObj [])
   pure { environ := fun k => lookupTable environ k, fe := fe }
+
+def envSettingOfJson : Json → R EnvSetting
+  | .null => pure .unset
+  | .bool true => pure .auto
+  | .bool false => pure .disabled
+  | .str s => pure (.named s)
+  | _ => throw "bad env setting"
+
+/-- `env.name`: the variable a field is bound to, from the `env` settings on the way down -/
+def envNameCmd (j : Json) : R Json := do
+  let root ← envSettingOfJson ((j.getObjVal? "root").toOption.getD .null)
+  let chain ← (← fArr j "chain").mapM (fun p => match p with
+    | .arr #[.str k, st] => do pure (k, ← envSettingOfJson st)
+    | _ => throw "bad chain entry")
+  let fs ← envSettingOfJson ((j.getObjVal? "field").toOption.getD .null)
+  match envName root chain fs (← fStr j "key") with
+  | some n => pure (Json.str n)
+  | none => pure Json.null
 
 def fuelDefault : Nat := 24
 
